@@ -17,7 +17,7 @@ RULE = (
     "subset; targets also written in their legacy spellings; each pair is first offered to the exempt 'Unknown' quantity "
     "type, and a pair that is valid for its own type is converted there and then offered under other quantity types) must raise. (c) (category, unit) pairs of different quantity types (all 501 k in thorough for "
     "ObtainQuantity, a subset for Scalar/Array/FixedArray/FractionScalar construction in every argument order) must "
-    "raise. (d) generated sequences interleaving such rejected calls with valid operations on a pool: after every "
+    "raise; the same for categories registered at run time under the name of another quantity type. (d) generated sequences interleaving such rejected calls with valid operations on a pool: after every "
     "rejected call the full registry snapshot (all public getters + both conversion functions sampled), every pool "
     "object's snapshot, the soundness of the memoised verdicts/cached quantities and the results of a fixed battery of "
     "valid operations are identical. Non-trivial = the two dimension vectors share a quantity type or a unit-symbol "
@@ -570,10 +570,44 @@ def run_sequence(ctx, ops):
         Machine(ctx, db, {"ops": ops}).run(ops)
 
 
+def run_renamed_categories(spec, ctx):
+    """Categories registered at run time whose *name* is the name of another quantity type: a category named X but
+    bound to quantity type Y takes the units of Y and rejects those of X, through every construction route."""
+    from barril.units import Scalar
+
+    db = env.new_db("posc")
+    with env.pushed(db):
+        sw = Sweep(ctx, db)
+        qts = [qt for qt in sorted(db.quantity_types) if qt != "Unknown" and qt in sw.cats and len(db.quantity_types[qt]) >= 2]
+        k = spec["seed"] % 7
+        pairs = [(qts[(i * 11 + k) % len(qts)], qts[(i * 11 + k + 5) % len(qts)]) for i in range(14 if spec["tier"] == "quick" else 80)]
+        pairs += [("standard volume", "volume"), ("length", "time"), ("area", "length")]
+        for X, Y in pairs:
+            if X == Y or X not in db.quantity_types or Y not in db.quantity_types:
+                continue
+            db.AddCategory(X, Y, override=True)
+            ux = [i.unit for i in db.quantity_types[X]][:6]
+            uy = [i.unit for i in db.quantity_types[Y]][:3]
+            for u in uy:
+                ctx.ev()
+                try:
+                    Scalar(1.0, u, X)
+                except Exception as e:
+                    ctx.record("category_rejects_unit_of_its_own_type", {"kind": "renamed", "X": X, "Y": Y, "u": u}, "category %r is bound to quantity type %r but Scalar(1, %r, %r) raised %s" % (X, Y, u, X, type(e).__name__))
+            sw.category_row(X, ux, 1.5, 1)
+            ctx.cls("renamed_category_pairs")
+            ctx.nt_disjoint += 1
+        bad = snapshot.caches_sound(db)
+        if bad:
+            ctx.record("cache_poisoned_by_rejection", {"kind": "renamed"}, "; ".join(bad[:3]))
+
+
 def run_shard(spec, ctx):
     seed = spec["seed"] * 1000 + spec["shard"]
     if spec["part"] == "sweep":
         run_sweep(spec, ctx)
+        if spec["i"] == 0:
+            run_renamed_categories(spec, ctx)
         return
     if spec["part"] == "pairs":
         db = env.new_db("posc")
@@ -617,6 +651,8 @@ def replay(case, ctx):
         sw = Sweep(ctx, db)
         if case.get("kind") in ("convert", "convert_wrong_type"):
             sw.convert_row(case["qt"], case["u"], [case["v"]] if case["kind"] == "convert" else [], case["x"], 1)
+        elif case.get("kind") == "renamed":
+            run_renamed_categories({"seed": 1, "tier": "quick"}, ctx)
         elif case.get("kind") == "construct":
             sw.category_row(case["c"], [case["u"]], case["x"], 1)
         else:
